@@ -42,9 +42,41 @@ def arm_kinds(pat):
     return tuple(out)
 
 
+def arm_alts(pat):
+    """every alternative of an arm pattern as (kinds, (binding of the left operand, binding of the right operand)); `A | B` arms give several"""
+    alts = pat['p'] if pat.get('k') == 'POr' else [pat]
+    out = []
+    for p in alts:
+        kinds = arm_kinds(p)
+        if not kinds:
+            continue
+        names = []
+        for q in p['p']:
+            bs = [x.get('n') for x in T.walk(q) if x.get('k') == 'Bind']
+            names.append(bs[0] if len(bs) == 1 else None)
+        out.append((kinds, tuple(names)))
+    return out
+
+
+NONCOMMUTATIVE = {'try_sub', 'try_div', 'try_floordiv', 'try_pow', 'try_mod', 'try_lt', 'try_le', 'try_gt', 'try_ge', 'try_lshift', 'try_rshift'}
+
+
+def operand_sides(arm_body, fname):
+    """[(locals on the left of the operator, locals on the right)] for the operator applications of the arm"""
+    out = []
+    for n in T.walk(arm_body):
+        if n.get('k') == 'Binary' and n['op'] in ARITH | {'<', '<=', '>', '>=', '<<', '>>'}:
+            out.append(({x['n'] for x in T.walk(n['x']) if x.get('k') == 'Local'}, {x['n'] for x in T.walk(n['y']) if x.get('k') == 'Local'}))
+        if n.get('k') == 'MCall' and n['n'] in POWFNS | {'partial_cmp', 'lt', 'le', 'gt', 'ge'} and n['a']:
+            out.append(({x['n'] for x in T.walk(n['r']) if x.get('k') == 'Local'}, {x['n'] for a in n['a'] for x in T.walk(a) if x.get('k') == 'Local'}))
+    return out
+
+
 def run(chk):
     fx = F.Facts()
     types = fx.file(VALUE)['types']
+    chk.rule('C04-R1b', 'in the non-commutative folding functions (try_sub, try_div, try_floordiv, try_pow, try_mod, comparisons, shifts) the left operand of the applied operator is '
+                        'the value bound in the first position of the arm pattern and the right operand the second — for every alternative of an or-pattern')
     chk.rule('C04-R1', 'in ValueObj::try_<op>, every numeric arm (Int/Nat/Float x Int/Nat/Float) applies only the operator <op> to its operands '
                        '(try_floordiv: `/` then floor for floats; try_pow: pow/powf/powi and no other arithmetic)')
     chk.rule('C04-R2', 'Context::eval_bin dispatches OpKind::X to ValueObj::try_x')
@@ -57,14 +89,21 @@ def run(chk):
         if not chk.need(len(ms) == 1, '%s: expected one top-level match' % fname):
             continue
         seen_pairs = set()
-        for arm in T.unsemi(ms[0])['arms']:
-            kinds = arm_kinds(arm['pat'])
+        for arm, kinds, names, nalt in [(a, k, nm, len(arm_alts(a['pat']))) for a in T.unsemi(ms[0])['arms'] for k, nm in arm_alts(a['pat'])]:
             if not kinds or not set(kinds) <= NUM:
                 continue
             n_arms += 1
             seen_pairs.add(kinds)
             where = 'ValueObj::%s' % fname
             inst = '%s,%s' % kinds
+            if fname in NONCOMMUTATIVE and all(names):
+                sides = operand_sides(arm['b'], fname)
+                wrong_side = [sd for sd in sides if (names[1] in sd[0] and names[0] not in sd[0]) or (names[0] in sd[1] and names[1] not in sd[1])]
+                if sides and not wrong_side:
+                    chk.ok('C04-R1b', (fname, inst))
+                elif wrong_side:
+                    chk.bad('C04-R1b', where, 'order:' + inst, '%s arm (%s): the operator is applied as `%s`, with the operands in the opposite order of the pattern `(%s, %s)`%s'
+                            % (fname, inst, T.show(arm['b'])[:80], names[0], names[1], ' (one alternative of an or-pattern)' if nalt > 1 else ''), VALUE, arm['l'])
             ops = [n for n in T.walk(arm['b']) if n.get('k') == 'Binary' and n['op'] in ARITH]
             pows = [n for n in T.calls(arm['b']) if n.get('k') == 'MCall' and n['n'] in POWFNS]
             floors = [n for n in T.calls(arm['b']) if n.get('k') == 'MCall' and n['n'] == 'floor']
